@@ -89,11 +89,19 @@ let handle = function
   | ["num_compare"; a; b] ->
      (match num_compare (num_of a) (num_of b) with Z0 -> "0" | Zpos _ -> "1" | Zneg _ -> "-1")
   | ["bignum_sqrt"; a] ->
-     (* any estimate gives the same root (theorem sqrt_newton_sound); start from B^ceil(len/2) >= sqrt a *)
+     (* any estimate gives the same root (theorem sqrt_newton_sound); start from 2^ceil(bits/2) >= sqrt a *)
      let x = zlist_of_string a in
      let n = List.length x in
-     let seed = Big (z_of_int 1, List.init ((n + 1) / 2) (fun _ -> Z0) @ [z_of_int 1]) in
-     (match sqrt_loop (nat_of_int (64 * n + 40)) (nat_of_int (2 * n + 8)) (nat_of_int (8 * n + 32)) (Big (z_of_int 1, x)) seed with
+     let sig_words = List.rev (let rec drop = function Z0 :: t -> drop t | l -> l in drop (List.rev x)) in
+     let ns = max 1 (List.length sig_words) in
+     let top = (match List.rev sig_words with [] -> "0" | t :: _ -> hex_of_z t) in
+     let lead = (match top.[0] with '0' -> 0 | '1' -> 1 | '2' | '3' -> 2 | '4' .. '7' -> 3 | _ -> 4) in
+     let bits = 64 * (ns - 1) + 4 * (String.length top - 1) + lead in
+     let e = (bits + 1) / 2 in
+     let k = e mod 64 in
+     let w = z_of_hex (String.make 1 "1248".[k mod 4] ^ String.make (k / 4) '0') in
+     let seed = Big (z_of_int 1, List.init (e / 64) (fun _ -> Z0) @ [w]) in
+     (match sqrt_loop (nat_of_int (n + 40)) (nat_of_int (2 * n + 8)) (nat_of_int (8 * n + 32)) (Big (z_of_int 1, x)) seed with
       | SV (s, r) -> string_of_num s ^ " " ^ string_of_num r
       | SFuel -> "FUEL" | SDivZero -> "EXC")
   | ["ratio_normalize"; n; d] ->
